@@ -546,6 +546,9 @@ func TestCorpus(t *testing.T) {
 	rapid.Check(t, func(rt_ *rapid.T) {
 		c := genCorpusCase(rt_, prop)
 		oc := runCorpusCase(c, prop)
+		if m := takeEnvTrouble(); m != "" && oc.inconclusive == "" {
+			oc.inconclusive = "a tool failed for an environmental reason (" + m + "): no verdict"
+		}
 		if oc.inconclusive != "" {
 			if *flagOut != "" {
 				if f, err := os.OpenFile(filepath.Join(*flagOut, fmt.Sprintf("inconclusive-%s-%d.txt", prop, *flagShard)), os.O_APPEND|os.O_CREATE|os.O_WRONLY, 0o644); err == nil {
